@@ -1573,4 +1573,203 @@ theorem shape_after {br : BR} {op : Op} {w w' : World} {id : Nat} {f : Dep → D
     obtain ⟨tp, _, rfl⟩ := newCanary_some hnew
     simp [maxName_modify _ _ _ hf]
 
+/-! ## maps: the created canary matches the template it was copied from -/
+
+theorem kvEq_refl (a : KV) : kvEq a a = true := by
+  unfold kvEq; simp
+
+theorem kvEraseAll_kvSet (m : KV) (k v : String) (ks : List String) (hk : k ∈ ks) :
+    kvEraseAll (kvSet m k v) ks = kvEraseAll m ks := by
+  unfold kvEraseAll kvSet
+  rw [List.filter_append, List.filter_filter]
+  have h1 : List.filter (fun e => !ks.contains e.1) [(k, v)] = [] := by simp [hk]
+  rw [h1, List.append_nil]
+  apply List.filter_congr
+  intro e _
+  by_cases he : e.1 = k
+  · simp [he, hk]
+  · simp [he]
+
+theorem kvEraseAll_kvSetAll (m p : KV) (ks : List String) (hp : ∀ e ∈ p, e.1 ∈ ks) :
+    kvEraseAll (kvSetAll m p) ks = kvEraseAll m ks := by
+  unfold kvSetAll
+  induction p generalizing m with
+  | nil => rfl
+  | cons e p ih =>
+    simp only [List.foldl_cons]
+    rw [ih (kvSet m e.1 e.2) (fun x hx => hp x (List.mem_cons_of_mem _ hx))]
+    exact kvEraseAll_kvSet m e.1 e.2 ks (hp e List.mem_cons_self)
+
+theorem eqIgnore_refl (br : BR) (t : Template) : eqIgnore br t t = true := by
+  unfold eqIgnore; simp [kvEq_refl]
+
+/-- the pod template `create` gives the canary equals the stable template modulo the ignored metadata:
+    this is why `Initialize` finds its own canary again -/
+theorem eqIgnore_patched {br : BR} {t tp : Template} (h : patchedTemplate br t = some tp) :
+    eqIgnore br t tp = true := by
+  unfold patchedTemplate at h
+  cases hp : br.patch with
+  | none => rw [hp] at h; cases h; exact eqIgnore_refl br t
+  | some p =>
+    rw [hp] at h
+    dsimp only at h
+    split at h
+    · cases h
+    · cases h
+      unfold eqIgnore
+      have hl : kvEraseAll (kvSetAll t.labels p.1) (ignoreLabels br) = kvEraseAll t.labels (ignoreLabels br) := by
+        apply kvEraseAll_kvSetAll
+        intro e he
+        unfold ignoreLabels; rw [hp]
+        simp only [List.mem_append]
+        left; unfold kvKeys; exact List.mem_map_of_mem he
+      have ha : kvEraseAll (kvSetAll t.annos p.2) (ignoreAnnos br) = kvEraseAll t.annos (ignoreAnnos br) := by
+        apply kvEraseAll_kvSetAll
+        intro e he
+        unfold ignoreAnnos; rw [hp]
+        unfold kvKeys; exact List.mem_map_of_mem he
+      simp [hl, ha, kvEq_refl]
+
+/-! ## counting the active canaries of the current template -/
+
+/-- the writes of the plane keep owner, deletion mark and pod template of every object -/
+def Pres (f : Dep → Dep) : Prop :=
+  ∀ d, (f d).owner = d.owner ∧ (f d).deleting = d.deleting ∧ (f d).template = d.template
+
+theorem pres_id : Pres (fun d => d) := fun _ => ⟨rfl, rfl, rfl⟩
+theorem pres_setCtrl : Pres setCtrl := fun _ => ⟨rfl, rfl, rfl⟩
+theorem pres_release (p : Bool) : Pres (releaseStable p) := fun _ => ⟨rfl, rfl, rfl⟩
+theorem pres_setReplicas (t : Int) : Pres (setReplicas t) := fun _ => ⟨rfl, rfl, rfl⟩
+
+theorem eff_pres {id : Nat} {f : Dep → Dep} {ids : List Nat} {d d' : Dep} (hp : Pres f)
+    (h : eff id f ids d = some d') :
+    d'.owner = d.owner ∧ d'.deleting = d.deleting ∧ d'.template = d.template := by
+  have hx : (if d.name = id then f d else d).owner = d.owner ∧
+      (if d.name = id then f d else d).deleting = d.deleting ∧
+      (if d.name = id then f d else d).template = d.template := by
+    split
+    · exact hp d
+    · exact ⟨rfl, rfl, rfl⟩
+  rcases eff_some h with h | ⟨_, h⟩ <;> rw [h] <;> exact hx
+
+theorem filter_filterMap_length_le {α : Type} (l : List α) (g : α → Option α) (p q : α → Bool)
+    (h : ∀ d ∈ l, ∀ d', g d = some d' → p d' = true → q d = true) :
+    ((l.filterMap g).filter p).length ≤ (l.filter q).length := by
+  induction l with
+  | nil => simp
+  | cons x l ih =>
+    have ih' := ih (fun d hd => h d (List.mem_cons_of_mem _ hd))
+    have hq : (l.filter q).length ≤ ((x :: l).filter q).length := by
+      simp only [List.filter_cons]; split <;> simp
+    simp only [List.filterMap_cons]
+    cases hg : g x with
+    | none => exact Nat.le_trans ih' hq
+    | some x' =>
+      by_cases hp : p x' = true
+      · have hqx := h x List.mem_cons_self x' hg hp
+        rw [List.filter_cons_of_pos hp, List.filter_cons_of_pos hqx]
+        simp only [List.length_cons]
+        omega
+      · have hp' : p x' = false := by simpa using hp
+        rw [List.filter_cons_of_neg (by simp [hp'])]
+        exact Nat.le_trans ih' hq
+
+/-- the stable template an object is compared with does not change (the stable Deployment may disappear) -/
+theorem stable_template_after {br : BR} {w w' : World} {id : Nat} {f : Dep → Dep} {ids : List Nat} {P : Dep → Prop}
+    (hf : ∀ d : Dep, (f d).name = d.name) (hp : Pres f) (hnd : (names w).Nodup) (h : After w id f ids P w')
+    (hstable : ∀ cd, P cd → (w.find br.key).isSome) :
+    ∀ st', w'.find br.key = some st' → ∃ st, w.find br.key = some st ∧ st'.template = st.template := by
+  intro st' hst'
+  cases hst : w.find br.key with
+  | some st =>
+    obtain ⟨hmem, hname⟩ := find_some hst
+    have := find_after hf hnd h hmem
+    rw [hname, hst'] at this
+    exact ⟨st, rfl, (eff_pres hp this.symm).2.2⟩
+  | none =>
+    exfalso
+    rcases h with h | ⟨_, cd, hP, _, _⟩
+    · rw [h, effW_find_none hf hnd hst] at hst'; cases hst'
+    · have := hstable cd hP
+      rw [hst] at this; cases this
+
+theorem matching_after {br : BR} {w w' : World} {id : Nat} {f : Dep → Dep} {ids : List Nat} {P : Dep → Prop}
+    (hf : ∀ d : Dep, (f d).name = d.name) (hp : Pres f) (hnd : (names w).Nodup) (h : After w id f ids P w')
+    (hstable : ∀ cd, P cd → (w.find br.key).isSome)
+    {d d' : Dep} (he : eff id f ids d = some d') (hm : matching br w' d' = true) : matching br w d = true := by
+  obtain ⟨h1, h2, h3⟩ := eff_pres hp he
+  unfold matching at hm ⊢
+  cases hst' : w'.find br.key with
+  | none => rw [hst'] at hm; simp at hm
+  | some st' =>
+    obtain ⟨st, hst, ht⟩ := stable_template_after hf hp hnd h hstable st' hst'
+    rw [hst'] at hm
+    rw [hst]
+    simp only [owned, h1, h2, h3, ht] at hm ⊢
+    exact hm
+
+theorem matchCount_zero_of_none {br : BR} {w : World} {id : Nat} {f : Dep → Dep} {st : Dep}
+    (hf : ∀ d : Dep, (f d).name = d.name) (hp : Pres f)
+    (hst : (w.modify id f).find br.key = some st)
+    (hnone : filterCanary br (filterActive (ownedDeps (w.modify id f))) (some st.template) = none) :
+    matchCount br w = 0 := by
+  unfold matchCount
+  rw [List.length_eq_zero_iff, List.filter_eq_nil_iff]
+  intro d hd
+  have hall := filterCanary_none hnone
+  rw [find_modify _ _ _ _ hf] at hst
+  cases hst0 : w.find br.key with
+  | none => simp [matching, hst0]
+  | some st0 =>
+    rw [hst0] at hst
+    simp only [Option.map_some, Option.some.injEq] at hst
+    have ht : st.template = st0.template := by
+      rw [← hst]; split
+      · exact (hp st0).2.2
+      · rfl
+    unfold matching
+    rw [hst0]
+    simp only [owned, Bool.and_eq_true, decide_eq_true_eq, Bool.not_eq_true', not_and, Bool.not_eq_true]
+    intro ⟨ho, hdel⟩
+    have hg : (if d.name = id then f d else d) ∈ filterActive (ownedDeps (w.modify id f)) := by
+      unfold filterActive ownedDeps World.modify
+      apply List.mem_filter.mpr
+      refine ⟨List.mem_filter.mpr ⟨List.mem_map_of_mem hd, ?_⟩, ?_⟩
+      · split
+        · simp [(hp d).1, ho]
+        · simp [ho]
+      · split
+        · simp [(hp d).2.1, hdel]
+        · simp [hdel]
+    have := hall _ hg
+    rw [ht] at this
+    have ht2 : (if d.name = id then f d else d).template = d.template := by
+      split
+      · exact (hp d).2.2
+      · rfl
+    rw [ht2] at this
+    exact this
+
+theorem effW_deps (w : World) (id : Nat) (f : Dep → Dep) (ids : List Nat) :
+    (effW w id f ids).deps = w.deps.filterMap (eff id f ids) := by
+  unfold effW dropAll World.modify
+  simp only [List.filterMap_map]
+  rfl
+
+theorem modify_deps_eff (w : World) (id : Nat) (f : Dep → Dep) :
+    (w.modify id f).deps = w.deps.filterMap (eff id f []) := by
+  rw [← effW_deps, effW_nil]
+
+theorem which_pres {br : BR} {op : Op} {w : World} {id : Nat} {f : Dep → Dep} {res : Res}
+    (h : (f = fun d => d) ∨ (op = .init ∧ id = br.key ∧ f = setCtrl) ∨
+        (op = .fin ∧ id = br.key ∧ f = releaseStable br.partition.isSome) ∨
+        (op = .upgrade ∧ ∃ cd t cur st, id = cd.name ∧ f = setReplicas t ∧ w.find br.key = some st ∧
+            st.replicas ≠ some 0 ∧ selectCanary br w = some cd ∧ target br w = some t ∧
+            cd.replicas = some cur ∧ cur < t ∧ res = .ok)) : Pres f := by
+  rcases h with rfl | ⟨_, _, rfl⟩ | ⟨_, _, rfl⟩ | ⟨_, _, t, _, _, _, rfl, _⟩
+  · exact pres_id
+  · exact pres_setCtrl
+  · exact pres_release _
+  · exact pres_setReplicas t
+
 end RV.CtlCanary
